@@ -191,6 +191,7 @@ impl Server {
                 let write_message = boxed_stream.err().unwrap().to_string();
                 return Err(write_message);
             };
+            return Err(app_processing.err().unwrap());
         }
         let response = app_processing.unwrap();
         #[cfg(rws_verif)]
